@@ -5,6 +5,7 @@ rendered from a composition whose rendering passes the decidable `unambiguous` t
 back exactly that composition, charge, phase, gas counterpart, mass number and is_atom; names with
 a foreign character must be rejected; element renaming rewrites the name consistently."""
 import itertools
+import re
 import random
 
 from .. import framework as fw
@@ -331,10 +332,15 @@ def pair_check(res, model, cfg_name, cfg, rng):
     for k, (a, b) in enumerate(pairs):
         ie = bool(objs[a] == objs[b])
         case = {"kind": "c08-eq", "config": cfg_name, "pair": [a, b]}
-        # differently written names are different species, except the electron spellings and the grain spellings
-        special = lambda n: n in ("e-", "E", "E-", "e") or n.startswith("GRAIN")
-        if a != b and not special(a) and not special(b) and ie:
-            res.violation("oracle", f"{a!r} == {b!r} under {cfg_name}: two differently written species compare equal", case)
+        # two names are the same species exactly when their canonical forms agree: the electron has four spellings,
+        # the dust grain of group 0 may be written GRAIN or GRAIN0 (any charge)
+        def canon(n):
+            if n in ("e-", "E", "E-", "e"):
+                return "<electron>"
+            g = re.fullmatch(r"GRAIN(\d*)([+-]*)", n) if cfg["grain"] == "GRAIN" else None
+            return ("grain", int(g.group(1) or 0), g.group(2)) if g else n
+        if ie != (canon(a) == canon(b)):
+            res.violation("oracle", f"{a!r} == {b!r} under {cfg_name} is {ie}: the names denote {'the same species' if canon(a) == canon(b) else 'different species'}", case)
         if a == b and not ie:
             res.violation("oracle", f"{a!r} != {a!r} under {cfg_name}", case)
         if mrep is not None and mrep[k] != ("1" if ie else "0"):
